@@ -62,8 +62,24 @@ def gen(rng, tier):
             if rng.random() < 0.6:
                 ab = splits(rng, contents(rng, rng.choice([1, 5, b - 1, b, b + 7, 2 * b + 1]), "rand"), rng.choice([1, 2]))
             hist(t, seqs, "reuse%d%s" % (len(seqs), " abandoned%%B=%d" % (sum(map(len, ab)) % b) if ab else ""), abandon=ab)
+        # a COPY of the context continues / is finished while the original goes on (the copy's buffers have capacity == size)
+        for a_len in [0, 1, b - 9, b - 8, b - 1, b, b + 1, 2 * b, 2 * b + 5] + [rng.randrange(0, top) for _ in range(4)]:
+            for b_len in [0, 1, 8, b - a_len % b, b]:
+                a = contents(rng, a_len, "rand"); bb = contents(rng, b_len, "rand")
+                cases.append(Case("shahist %s I U:%s K U:%s F" % (t, hexs(a), hexs(bb)), "%s copy-continue a%%B=%d b=%d" % (t, a_len % b, b_len), True,
+                                  spec="spec.cat %s %s" % (t, hexs(a + bb))))
+                cases.append(Case("shahist %s I U:%s k U:%s K F" % (t, hexs(a), hexs(bb)), "%s copy-fork a%%B=%d b=%d" % (t, a_len % b, b_len), True,
+                                  spec="spec.cat %s %s %s" % (t, hexs(a), hexs(a + bb))))
         # streaming HMAC
         klens = [0, 1, b - 1, b, b + 1, 2 * b + 1]
+        for kl in [1, b, b + 1]:
+            key = contents(rng, kl, "rand")
+            for a_len in [0, 1, b - 9, b - 8, b, b + 3]:
+                a = contents(rng, a_len, "rand"); bb = contents(rng, rng.choice([0, 1, 9, b]), "rand")
+                cases.append(Case("hmachist %s I:%s U:%s K U:%s F" % (t, hexs(key), hexs(a), hexs(bb)), "%s hmac copy-continue a%%B=%d" % (t, a_len % b), True,
+                                  spec="spec.hmaccat %s %s:%s" % (t, hexs(key), hexs(a + bb))))
+                cases.append(Case("hmachist %s I:%s U:%s k U:%s K F" % (t, hexs(key), hexs(a), hexs(bb)), "%s hmac copy-fork a%%B=%d" % (t, a_len % b), True,
+                                  spec="spec.hmaccat %s %s:%s %s:%s" % (t, hexs(key), hexs(a), hexs(key), hexs(a + bb))))
         for kl in klens:
             key = contents(rng, kl, "rand")
             for n in ([0, 1, b - 9, b - 8, b, b + 1, 2 * b + 3] if tier == "quick" else list(range(0, 2 * b + 6, 3))):
